@@ -56,6 +56,11 @@ type UpReply struct {
 	Kind   string
 	Key    string
 	Bytes  int
+	// Arrival is the arrival number of the query this reply answers (selects the answer spec).
+	Arrival int
+	// QueryAt is when the query reached the server.
+	QueryAt time.Duration
+	ECS     string
 }
 
 type UpServer struct {
@@ -73,6 +78,8 @@ type UpServer struct {
 	Replies  []UpReply
 	serials  map[string]int
 	arrivals map[string]int
+	// ConnGone is when the server noticed that a stream connection was closed by the peer.
+	ConnGone map[int]time.Duration
 	connSeq  int
 	conns    map[int]*upConn
 	ln       *vnet.TCPListener
@@ -96,7 +103,7 @@ type upConn struct {
 
 func NewUpServer(s *sim.Sim, w *vnet.World, seed uint64, spec plan.UpstreamSpec, tokens map[string]*plan.TokenSpec, pki *PKI) *UpServer {
 	return &UpServer{S: s, W: w, Seed: seed, Spec: spec, Tokens: tokens, PKI: pki,
-		serials: map[string]int{}, arrivals: map[string]int{}, conns: map[int]*upConn{},
+		serials: map[string]int{}, arrivals: map[string]int{}, conns: map[int]*upConn{}, ConnGone: map[int]time.Duration{},
 		DefaultAns: plan.AnswerSpec{NAn: 1, TTLs: []uint32{300}, Shape: "plain"}}
 }
 
@@ -343,6 +350,7 @@ func (u *UpServer) serveStream(raw *vnet.StreamConn, cfg *tls.Config) {
 	}
 	u.mu.Lock()
 	delete(u.conns, uc.id)
+	u.ConnGone[uc.id] = u.S.Now()
 	u.mu.Unlock()
 	c.Close()
 }
@@ -507,7 +515,8 @@ func TokenOf(n refdns.Name) string {
 	return ""
 }
 
-func keyOf(n refdns.Name, class, typ uint16) string {
+// KeyOf is the cache-key-like identity of a question.
+func KeyOf(n refdns.Name, class, typ uint16) string {
 	return fmt.Sprintf("%x/%d/%d", []byte(n.Lower()), class, typ)
 }
 
@@ -545,7 +554,7 @@ func (u *UpServer) handle(b []byte, proto string, conn int, qc qctx, reply func(
 	ans := &u.DefaultAns
 	act := plan.UpAction{Kind: "reply", DelayUs: 200}
 	if spec != nil {
-		ans = &spec.Ans
+		ans = spec.SpecFor(q.Arrival)
 		if len(spec.Acts) > 0 {
 			i := q.Arrival
 			if i >= len(spec.Acts) {
@@ -562,7 +571,7 @@ func (u *UpServer) handle(b []byte, proto string, conn int, qc qctx, reply func(
 		u.mu.Unlock()
 	}
 	mkReply := func() ([]byte, int, string) {
-		key := keyOf(q.Name, q.Class, q.Type)
+		key := KeyOf(q.Name, q.Class, q.Type)
 		u.mu.Lock()
 		u.serials[key]++
 		serial := u.serials[key]
@@ -576,7 +585,7 @@ func (u *UpServer) handle(b []byte, proto string, conn int, qc qctx, reply func(
 	}
 	logReply := func(kind string, serial int, key string, n int) {
 		u.mu.Lock()
-		u.Replies = append(u.Replies, UpReply{At: s.Now(), Up: u.Spec.Tag, Conn: conn, WireID: q.WireID, Token: q.Token, Serial: serial, Kind: kind, Key: key, Bytes: n})
+		u.Replies = append(u.Replies, UpReply{At: s.Now(), Up: u.Spec.Tag, Conn: conn, WireID: q.WireID, Token: q.Token, Serial: serial, Kind: kind, Key: key, Bytes: n, Arrival: q.Arrival, QueryAt: q.At, ECS: q.ECS})
 		u.mu.Unlock()
 		s.Logf("up_reply", "%s conn=%d id=%d tok=%s kind=%s ser=%d", u.Spec.Tag, conn, q.WireID, q.Token, kind, serial)
 	}
